@@ -3,7 +3,8 @@ import itertools
 
 from pyvc.bounded import Driver
 
-TEXTS = ['', 'a', 'abcabc', 'aXbXa', 'Hello World', '  two  blanks ', 'say "hi"', "it's", 'naïve café', '日本語テキスト', 'aaa']
+TEXTS = ['', 'a', 'abcabc', 'aXbXa', 'Hello World', '  two  blanks ', 'say "hi"', "it's", 'naïve café', '日本語テキスト', 'aaa',
+         'Straße µg ﬁn ς']            # letters whose lower case is not their case-folded form (ß, micro sign, ligature, final sigma)
 
 
 def q(s):
@@ -104,5 +105,5 @@ def oracle(c):
 
 
 DRIVERS = [Driver('C17/B6.formulas', cases_formula, oracle, nchunks=12,
-                  rule='11 texts (blanks, quotes, repeated substrings, non-ASCII) x positions/counts from -2 to len+2 through formulas in a compiled model; reference = Python slicing written independently',
+                  rule='12 texts (blanks, quotes, repeated substrings, non-ASCII incl. letters that case-folding rewrites) x positions/counts from -2 to len+2 through formulas in a compiled model; reference = Python slicing written independently',
                   bound='texts up to 14 characters')]
